@@ -780,7 +780,7 @@ def gen_src(unit_name):
 
 GEN_SRC = {n: gen_src(n) for n in ("SrcKmpLps", "SrcShiftAndMasks", "SrcHorspoolNew", "SrcFenwick", "SrcBitEnc", "SrcBwt", "SrcPrescan")}
 # (genbits) bit-packed containers: SmallInts (C18, C03), RankSelect and WaveletMatrix (C17)
-GEN_SRC.update({n: gen_src(n) for n in ("SrcSmallInts", "SrcRankSelect")})
+GEN_SRC.update({n: gen_src(n) for n in ("SrcSmallInts", "SrcRankSelect", "SrcWavelet")})
 
 
 # ------------------------------------------------------------------------------------------ theorem modules built here
@@ -837,7 +837,7 @@ EXTRACTORS = {
 # (genbits) additional units, appended so that concurrent edits of the table above merge trivially
 EXTRACTORS["C18"] = EXTRACTORS["C18"] + [GEN_SRC["SrcSmallInts"]]
 EXTRACTORS["C03"] = EXTRACTORS["C03"] + [GEN_SRC["SrcSmallInts"]]
-EXTRACTORS["C17"] = EXTRACTORS["C17"] + [GEN_SRC["SrcRankSelect"]]
+EXTRACTORS["C17"] = EXTRACTORS["C17"] + [GEN_SRC["SrcRankSelect"], GEN_SRC["SrcWavelet"]]
 
 
 def main():
